@@ -268,14 +268,14 @@ def e2e_events():
     evs = []
     for b in BLOCKS:
         evs.append(('block', b))
-    for shape in ('one', 'strlit', 'bracket', 'for', 'deco'):
-        multi = shape in ('bracket', 'for', 'deco')
+    for shape in ('one', 'strlit', 'bracket', 'for', 'deco', 'decocls'):
+        multi = shape in ('bracket', 'for', 'deco', 'decocls')
         for style in (('dots', 'chev') if multi else ('chev',)):
             for inl in INLINES:
                 if shape == 'strlit' and inl not in (None, ('SKIP', True, None), ('SKIP', False, None)):
                     continue
                 for where in (('first', 'last') if (multi and inl) else ('first',)):
-                    for w in (['none'] if shape == 'deco' else WANTS):
+                    for w in (['none'] if shape in ('deco', 'decocls') else WANTS):
                         evs.append(('stmt', shape, style, inl, where, w))
     return evs
 
@@ -328,6 +328,9 @@ def render_event(ev, k, okwant=None):
     elif shape == 'deco':
         lines = ['>>> @D(%d)%s' % (k, cf), ps2 + 'def g%d():' % k, ps2 + '    pass%s' % cl]
         out = []
+    elif shape == 'decocls':
+        lines = ['>>> @D(%d)%s' % (k, cf), ps2 + 'class G%d:' % k, ps2 + '    pass%s' % cl]
+        out = []
     if w == 'ok':
         lines += (okwant if okwant else out)
     elif w == 'wrong':
@@ -341,7 +344,7 @@ def ev_trace(ev, k):
     shape = ev[1]
     if shape == 'for':
         return [k, k]
-    if shape == 'deco':
+    if shape in ('deco', 'decocls'):
         return [('D', k), ('d', k)]
     return [k]
 
@@ -443,7 +446,7 @@ class E2ESpec(Spec):
             _, shape, style, inl, where, w = ev
             eff = apply_directive(st, inl) if inl else st
             runs = (not eff['SKIP']) and not eff['REQUIRES']
-            own = {'for': ['p%d' % k, 'p%d' % k], 'deco': []}.get(shape, ['p%d' % k])
+            own = {'for': ['p%d' % k, 'p%d' % k], 'deco': [], 'decocls': []}.get(shape, ['p%d' % k])
             okwant = None
             if verdict != 'run':
                 runs = False     # after the failing want nothing runs
